@@ -26,6 +26,8 @@ MAX_STEPS = 200
 PROFILES = {
     'generic': gen.Profile(w_atom=5, w_pred=3, w_ident=1, w_neg=4, w_assert=1, w_bin=7, w_modal=4, w_quant=3, max_depth=3),
     'modal-heavy': gen.Profile(w_atom=6, w_pred=1, w_neg=4, w_bin=4, w_modal=12, max_depth=3, natoms=2),
+    'modal-deep': gen.Profile(w_atom=4, w_pred=0, w_neg=3, w_assert=0, w_bin=3, w_modal=14, w_quant=0, max_depth=5, natoms=2,
+                              bin_ops=('Conjunction', 'Disjunction')),
     'quant-heavy': gen.Profile(w_atom=2, w_pred=7, w_ident=1, w_neg=3, w_bin=5, w_modal=2, w_quant=8, max_depth=3,
                                consts=(A.const(1), A.const(0))),
 }
@@ -148,8 +150,8 @@ def run_shard(shard, acc):
               phases=[Phase.generate], suppress_health_check=list(HealthCheck))
     @given(st.data())
     def body(data):
-        pname = ('generic', 'modal-heavy', 'quant-heavy', 'valid-biased', 'valid-biased')[data.draw(st.integers(0, 4))]
-        pred = {'modal-heavy': R.is_modal, 'quant-heavy': R.is_quantified}.get(pname)
+        pname = ('generic', 'modal-heavy', 'quant-heavy', 'valid-biased', 'valid-biased', 'modal-deep')[data.draw(st.integers(0, 5))]
+        pred = {'modal-heavy': R.is_modal, 'modal-deep': R.is_modal, 'quant-heavy': R.is_quantified}.get(pname)
         logic = data.draw(gen.logic_name(pred))
         if pname == 'valid-biased':
             prem, con = wrapped_valid(data, logic)
